@@ -83,3 +83,81 @@ def field_change(payload):
     if not inplace_mutate(p):
         p = [p]
     return p
+
+
+# ---- containers that are instances of dict / list / tuple SUBCLASSES (json serializes them like the base types) ------------------
+
+import collections
+
+
+class ListSub(list):
+    pass
+
+
+class DictSub(dict):
+    pass
+
+
+PairTuple = collections.namedtuple("PairTuple", ["first", "rest"])
+
+
+def subclassed(payload, variant=0):
+    """Deep copy of a JSON-like payload whose NESTED dicts / lists / tuples are instances of subclasses (OrderedDict, defaultdict,
+    a dict subclass, a list subclass, a namedtuple); the top-level object keeps its exact type.  Returns (copy, n_converted)."""
+    n = [0]
+
+    def conv(x, top):
+        if isinstance(x, dict):
+            items = [(k, conv(v, False)) for k, v in x.items()]
+            if top:
+                return dict(items)
+            n[0] += 1
+            kind = (variant + n[0]) % 3
+            if kind == 0:
+                return collections.OrderedDict(items)
+            if kind == 1:
+                d = collections.defaultdict(list)
+                d.update(items)
+                return d
+            return DictSub(items)
+        if isinstance(x, list):
+            items = [conv(v, False) for v in x]
+            if top:
+                return items
+            n[0] += 1
+            return ListSub(items)
+        if isinstance(x, tuple):
+            items = [conv(v, False) for v in x]
+            if top or len(items) < 1:
+                return tuple(items)
+            n[0] += 1
+            return PairTuple(items[0], ListSub(items[1:]))
+        return copy.deepcopy(x)
+    return conv(payload, True), n[0]
+
+
+def plain(x):
+    """structure with every container reduced to its base type (for comparisons)"""
+    if isinstance(x, dict):
+        return {"$dict": [[plain(k), plain(v)] for k, v in x.items()]}
+    if isinstance(x, (list, tuple)):
+        return {"$seq": type(x).__name__ if type(x) in (list, tuple) else ("list" if isinstance(x, list) else "tuple"),
+                "items": [plain(v) for v in x]}
+    return repr(x)
+
+
+def mutate_all_nested(x, top=True):
+    """Change every nested mutable container in place, whatever its class (the top-level object is left alone); returns the
+    number of containers changed."""
+    n = 0
+    children = list(x.values()) if isinstance(x, dict) else list(x) if isinstance(x, (list, tuple)) else []
+    for c in children:
+        n += mutate_all_nested(c, False)
+    if not top:
+        if isinstance(x, dict):
+            x["\u0000verif-probe"] = 1
+            n += 1
+        elif isinstance(x, list):
+            x.append("verif-probe")
+            n += 1
+    return n
